@@ -236,7 +236,7 @@ def report_unions(run: Run, live: Live, mm: MetaModel, ua: UnionAnalysis, kinds:
         functions.append(f"{res.label}  [{res.source}]  sites={len(res.site.where)}")
         if res.unsupported:
             outside.append(f"{res.label}: {res.unsupported}")
-            bounded_site(run, live, mm, res, kinds)
+            bounded_site(run, live, mm, res, kinds, success_only)
             continue
         reach = [o for o in res.obligations if o.kind == "reach"]
         if reach and not any(o.answer == "sat" for o in reach):
@@ -283,7 +283,7 @@ def report_unions(run: Run, live: Live, mm: MetaModel, ua: UnionAnalysis, kinds:
     return {"n_ob": n_ob, "n_dis": n_dis, "backends": backends, "samples": samples, "functions": functions, "outside": outside, "cross_check": ua.cross}
 
 
-def bounded_site(run: Run, live: Live, mm: MetaModel, res: hg.SiteResult, kinds: Set[str]):
+def bounded_site(run: Run, live: Live, mm: MetaModel, res: hg.SiteResult, kinds: Set[str], success_only: bool = False):
     """Stand-in for a handler outside the verified subset: native evaluation of the contract on the site's input family."""
     site = res.site
     fam = site_inputs(mm, site.tau)
@@ -298,7 +298,7 @@ def bounded_site(run: Run, live: Live, mm: MetaModel, res: hg.SiteResult, kinds:
                 continue
             if v is jv and out["valid_strict"]:
                 bad = None
-                if "raised" in out and ("O0" in kinds or "O1" in kinds):
+                if "raised" in out and ("O0" in kinds or ("O1" in kinds and not success_only)):
                     bad = ("O0", out["raised"])
                 elif out.get("reading_problem") and "O1" in kinds:
                     bad = ("O1", out["reading_problem"])
